@@ -281,6 +281,29 @@ def cbytes(b):
     """bytes -> list N"""
     if isinstance(b, str):
         b = b.encode()
+    # runs of one byte are printed as (rp byte len) [Model/Codec.v]: Coq parses ~14 kB/s of list literals
+    if len(b) >= 8 and len(set(b)) == 1 and len(b) < 5000:
+        return "(rp %d %d)" % (b[0], len(b))
+    if len(b) >= 24:
+        # split into maximal runs
+        parts = []
+        i = 0
+        lit = []
+        while i < len(b):
+            j = i
+            while j < len(b) and b[j] == b[i]:
+                j += 1
+            if j - i >= 8 and j - i < 5000:
+                if lit:
+                    parts.append("[" + ";".join("%d" % x for x in lit) + "]%N")
+                    lit = []
+                parts.append("(rp %d %d)" % (b[i], j - i))
+            else:
+                lit += list(b[i:j])
+            i = j
+        if lit:
+            parts.append("[" + ";".join("%d" % x for x in lit) + "]%N")
+        return "(" + " ++ ".join(parts) + ")" if len(parts) > 1 else parts[0]
     return "[" + ";".join("%d" % x for x in b) + "]%N"
 
 
